@@ -18,6 +18,7 @@ func init() {
 func c17(c *Ctx) {
 	p, R := c.Node(), c.R
 	R.Trust("go/types + go/ssa", "Go select semantics: a select with a default case never blocks", "benbjohnson/clock ticker")
+	loopVarRule(c, p, "C17.loopvar", pkgGuardiand, pkgCommon)
 	R.Assumption("phase effects between the purge ticker and requests are bounded by the two constants (11..18 min) and not decided further")
 	fn := must(p.Func(pkgGuardiand, "handleReobservationRequests"), "guardiand.handleReobservationRequests")
 	post := must(p.Func(pkgCommon, "PostObservationRequest"), "common.PostObservationRequest")
@@ -74,7 +75,7 @@ func c17(c *Ctx) {
 	// fields of the cache key literal r
 	rvals := map[string]string{}
 	eachInstr(fn, func(i ssa.Instruction) {
-		if al, ok := i.(*ssa.Alloc); ok && al.Comment == "r" && al.Referrers() != nil {
+		if al, ok := i.(*ssa.Alloc); ok && facts.LocalName(fn, al.Comment) == "r" && al.Referrers() != nil {
 			for _, r := range *al.Referrers() {
 				if fa, ok := r.(*ssa.FieldAddr); ok && fa.Referrers() != nil {
 					for _, rr := range *fa.Referrers() {
